@@ -1549,6 +1549,8 @@ class Interp:
         from .symcoll import SymMap
         g = n.generators[0]
         it = self.eval(g.iter, fr)
+        if hasattr(it, "as_symseq"):
+            it = it.as_symseq(self)
         if not isinstance(it, SymSeq) or len(n.generators) != 1:
             return None
         if g.ifs:
@@ -1849,12 +1851,12 @@ class Interp:
             elif isinstance(t, ast.Subscript):
                 o = self.eval(t.value, fr)
                 k = self.eval(t.slice, fr)
-                if isinstance(o, dict):
+                if hasattr(o, "sym_delitem"):
+                    o.sym_delitem(self, k)
+                elif isinstance(o, dict):
                     if self.hashable(k) not in o:
                         self.raise_("KeyError", k)
                     del o[self.hashable(k)]
-                elif hasattr(o, "sym_delitem"):
-                    o.sym_delitem(self, k)
                 elif isinstance(o, Env):
                     self.trace.append(Ev(f"{o.path}.__delitem__", (k,)))
                 else:
@@ -2150,6 +2152,8 @@ class Interp:
 
     def s_For(self, s, fr):
         it = self.eval(s.iter, fr)
+        if hasattr(it, "as_symseq"):
+            it = it.as_symseq(self)
         spec = self.loop_spec(fr, s)
         if spec is not None and getattr(spec, "skip", False):
             # abstracted loop: the contract declares (and checks syntactically) that the body only touches state
